@@ -19,8 +19,11 @@ pub mod c13;
 pub mod c14;
 pub mod c15;
 pub mod c16;
+pub mod c17;
+pub mod e3;
 pub mod c18;
 pub mod c19;
+pub mod c20;
 pub mod twin;
 pub mod twingen;
 pub mod twinref;
@@ -40,7 +43,7 @@ pub struct PropDef {
 }
 
 pub fn all() -> &'static [PropDef] {
-    &[c01::DEF, c02::DEF, c03::DEF, c04::DEF, c05::DEF, c06::DEF, c07::DEF, c08::DEF, c09::DEF, c10::DEF, c11::DEF, c13::DEF, c14::DEF, c15::DEF, c16::DEF, c18::DEF, c19::DEF]
+    &[c01::DEF, c02::DEF, c03::DEF, c04::DEF, c05::DEF, c06::DEF, c07::DEF, c08::DEF, c09::DEF, c10::DEF, c11::DEF, c13::DEF, c14::DEF, c15::DEF, c16::DEF, c17::DEF, c18::DEF, c19::DEF, c20::DEF]
 }
 
 /// Serde helper: u128 as decimal string (serde_json cannot read back large
